@@ -333,6 +333,195 @@ fn run_routing(rng: &mut Rng) -> Result<Option<(String, String)>, String> {
     })
 }
 
+/// a history of attaches, detaches (by either side) and transfers on up to three receiving links, the
+/// peer picking its handles from a small pool and re-using them after a detach; every step is written
+/// as a line for the routing model (`Amqp/Routing.lean`, driver prefix `U`) together with what the
+/// implementation did: the output handle on the wire, the receiver that was handed the delivery
+fn run_routing_history(rng: &mut Rng) -> Result<(Vec<String>, Vec<String>, Option<(String, String)>), String> {
+    #[derive(Clone, Debug)]
+    enum ROp {
+        Attach(usize),
+        Close(usize),
+        PeerCloses(usize),
+        Transfer(usize),
+        Stale,
+    }
+    let n_ops = rng.range(3, 12) as usize;
+    let pool = [0u32, 1, 7, 65535, u32::MAX];
+    let mut ops: Vec<ROp> = vec![];
+    {
+        let mut att = [false; 3];
+        for k in 0..n_ops {
+            let i = rng.below(3) as usize;
+            let op = if !att[i] {
+                att[i] = true;
+                ROp::Attach(i)
+            } else {
+                match rng.below(6) {
+                    0 => {
+                        att[i] = false;
+                        ROp::Close(i)
+                    }
+                    1 => {
+                        att[i] = false;
+                        ROp::PeerCloses(i)
+                    }
+                    _ => ROp::Transfer(i),
+                }
+            };
+            ops.push(op);
+            if k + 1 == n_ops && rng.chance(1, 4) {
+                ops.push(ROp::Stale);
+            }
+        }
+    }
+    let rt = paused_runtime();
+    let mut r2 = rng.fork();
+    rt.block_on(async move {
+        let (cio, pio) = tokio::io::duplex(1 << 20);
+        let mut peer = Peer::new(pio);
+        let client = tokio::spawn(async move {
+            let mut conn = Connection::builder().container_id("c11h").open_with_stream(cio).await.map_err(|e| format!("open: {:?}", e))?;
+            let session = Session::begin(&mut conn).await.map_err(|e| format!("begin: {:?}", e))?;
+            Ok::<_, String>((conn, session))
+        });
+        peer.accept_open(&PeerOpen::default()).await.map_err(|e| format!("{:?}", e))?;
+        peer.accept_begin(0, 0, 2048, 2048).await.map_err(|e| format!("{:?}", e))?;
+        let (_conn, mut session) = client.await.map_err(|e| format!("{:?}", e))??;
+        peer.recv_timeout = Duration::from_millis(200);
+        let mut model: Vec<String> = vec!["U reset".into()];
+        let mut imp: Vec<String> = vec!["ok".into()];
+        let mut receivers: [Option<Receiver>; 3] = [None, None, None];
+        // per link: (endpoint number, our handle as seen on the wire, the peer's handle)
+        let mut info: [Option<(usize, u32, u32)>; 3] = [None, None, None];
+        let mut peer_live: Vec<u32> = vec![];
+        let mut freed: Vec<u32> = vec![];
+        let mut next_lid = 0usize;
+        let mut next_delivery = 0u32;
+        for op in &ops {
+            match op {
+                ROp::Attach(i) => {
+                    let free: Vec<u32> = pool.iter().copied().filter(|h| !peer_live.contains(h)).collect();
+                    // prefer a handle that was used before
+                    let h = match freed.iter().copied().find(|h| free.contains(h)) {
+                        Some(h) if r2.chance(2, 3) => h,
+                        _ => *r2.pick(&free),
+                    };
+                    let name = format!("r{}", i);
+                    let b = Receiver::builder().name(name.clone()).source("q").credit_mode(CreditMode::Manual).auto_accept(false);
+                    let att = b.attach(&mut session);
+                    let pa = peer.accept_attach(0, h, Some(0), ReceiverSettleMode::First);
+                    let (ra, rp) = tokio::join!(att, pa);
+                    let theirs = rp.map_err(|e| format!("peer attach: {:?}", e))?;
+                    let mut r = ra.map_err(|e| format!("attach: {:?}", e))?;
+                    r.set_credit(20).await.map_err(|e| format!("set_credit: {:?}", e))?;
+                    let _ = peer.recv_frame().await; // the flow
+                    model.push(format!("U alloc {}", name));
+                    imp.push(format!("A {} {}", next_lid, theirs.handle.0));
+                    model.push(format!("U inattach {} {}", name, h));
+                    imp.push(format!("TO {}", next_lid));
+                    info[*i] = Some((next_lid, theirs.handle.0, h));
+                    next_lid += 1;
+                    peer_live.push(h);
+                    receivers[*i] = Some(r);
+                }
+                ROp::Close(i) => {
+                    let r = receivers[*i].take().ok_or("close of a link that is not attached")?;
+                    let (lid, _out, h) = info[*i].take().ok_or("no info")?;
+                    let closing = tokio::spawn(async move { r.close().await });
+                    let out = loop {
+                        match peer.recv_frame().await {
+                            Ok((_, Performative::Detach(d), _)) => break d.handle.0,
+                            Ok(_) => {}
+                            Err(e) => return Err(format!("no detach from the client: {:?}", e)),
+                        }
+                    };
+                    model.push(format!("U dealloc {}", out));
+                    imp.push("DONE".into());
+                    peer.send(0, Performative::Detach(Detach { handle: Handle(h), closed: true, error: None }), &[]).await.map_err(|e| format!("{:?}", e))?;
+                    let res = closing.await.map_err(|e| format!("{:?}", e))?;
+                    model.push(format!("U indetach {}", h));
+                    imp.push(if res.is_ok() { format!("TO {}", lid) } else { format!("close-failed:{:?}", res.err()) });
+                    peer_live.retain(|x| *x != h);
+                    freed.push(h);
+                }
+                ROp::PeerCloses(i) => {
+                    let r = receivers[*i].take().ok_or("close of a link that is not attached")?;
+                    let (lid, my_out, h) = info[*i].take().ok_or("no info")?;
+                    peer.send(0, Performative::Detach(Detach { handle: Handle(h), closed: true, error: None }), &[]).await.map_err(|e| format!("{:?}", e))?;
+                    tokio::time::sleep(Duration::from_millis(5)).await;
+                    let closing = tokio::spawn(async move { r.close().await });
+                    let out = loop {
+                        match peer.recv_frame().await {
+                            Ok((_, Performative::Detach(d), _)) => break Some(d.handle.0),
+                            Ok(_) => {}
+                            Err(_) => break None,
+                        }
+                    };
+                    let _ = closing.await.map_err(|e| format!("{:?}", e))?;
+                    model.push(format!("U indetach {}", h));
+                    // the endpoint that saw the peer's close answers it, on its own output handle
+                    imp.push(if out == Some(my_out) { format!("TO {}", lid) } else { format!("answered-on:{:?}", out) });
+                    model.push(format!("U dealloc {}", out.map(|x| x as i64).unwrap_or(-1)));
+                    imp.push(if out.is_some() { "DONE".into() } else { "no-detach-from-the-client".into() });
+                    peer_live.retain(|x| *x != h);
+                    freed.push(h);
+                }
+                ROp::Transfer(i) => {
+                    let (_lid, _out, h) = info[*i].ok_or("transfer on a link that is not attached")?;
+                    let t = transfer(h, Some(next_delivery), Some(vec![*i as u8, next_delivery as u8]), Some(true), false);
+                    next_delivery += 1;
+                    peer.send(0, Performative::Transfer(t), &message_bytes(500 + *i as u64, 6)).await.map_err(|e| format!("{:?}", e))?;
+                    tokio::time::sleep(Duration::from_millis(5)).await;
+                    let mut got: Vec<usize> = vec![];
+                    for (j, r) in receivers.iter_mut().enumerate() {
+                        if let Some(r) = r {
+                            if let Ok(Ok(_)) = tokio::time::timeout(Duration::from_millis(10), r.recv::<Value>()).await {
+                                got.push(info[j].map(|x| x.0).unwrap_or(999));
+                            }
+                        }
+                    }
+                    model.push(format!("U frame {}", h));
+                    imp.push(match got.as_slice() {
+                        [l] => format!("TO {}", l),
+                        [] => "nobody".into(),
+                        more => format!("several:{:?}", more),
+                    });
+                }
+                ROp::Stale => {
+                    // a handle the peer has detached (or never used)
+                    let h = freed.iter().copied().find(|h| !peer_live.contains(h)).unwrap_or(4242);
+                    let t = transfer(h, Some(next_delivery), Some(vec![9, 9]), Some(true), false);
+                    peer.send(0, Performative::Transfer(t), &message_bytes(77, 6)).await.map_err(|e| format!("{:?}", e))?;
+                    let mut ended = false;
+                    for _ in 0..6 {
+                        match peer.recv_frame().await {
+                            Ok((_, Performative::End(e), _)) => {
+                                ended = e.error.is_some();
+                                break;
+                            }
+                            Ok(_) => {}
+                            Err(_) => break,
+                        }
+                    }
+                    let mut got = false;
+                    for r in receivers.iter_mut().flatten() {
+                        if let Ok(Ok(_)) = tokio::time::timeout(Duration::from_millis(10), r.recv::<Value>()).await {
+                            got = true;
+                        }
+                    }
+                    model.push(format!("U frame {}", h));
+                    imp.push(if got { "delivered-to-somebody".into() } else if ended { "UNATTACHED".into() } else { "ignored".into() });
+                    break;
+                }
+            }
+        }
+        // the property, read directly off the two columns: a frame goes to the endpoint attached on its handle
+        let verdict = imp.iter().zip(model.iter()).find(|(i, _)| i.starts_with("several") || i.starts_with("delivered-to-somebody") || *i == "nobody").map(|(i, m)| ("misrouted".to_string(), format!("{} -> {}", m, i)));
+        Ok((model, imp, verdict))
+    })
+}
+
 /// routing by channel: 2..4 sessions; the peer answers every begin on a channel of its own choosing
 /// (a permutation of the client's, sparse, large), one receiver per session, one delivery per session
 /// in random order; every receiver must get exactly its own, and every frame the client sends for a
@@ -485,6 +674,28 @@ pub fn main(opts: &Opts) {
                 }
             }
         }
+        if let Some(tag) = j.get("routing_history_rng").and_then(|x| x.as_u64()) {
+            let mut r = Rng(tag);
+            match run_routing_history(&mut r) {
+                Ok((ml, il, verdict)) => {
+                    let model = if driver_available() { run_driver(&ml).unwrap_or_default() } else { vec![] };
+                    for (i, l) in ml.iter().enumerate() {
+                        println!("{:<28} implementation {:<14} model {}", l, il[i], model.get(i).cloned().unwrap_or_default());
+                    }
+                    let differs = !model.is_empty() && model != il;
+                    if verdict.is_some() || differs {
+                        println!("REPLAY: property violated {:?}{}", verdict, if differs { " (model and implementation differ)" } else { "" });
+                        std::process::exit(1);
+                    }
+                    println!("REPLAY: property holds on this scenario");
+                    std::process::exit(0);
+                }
+                Err(e) => {
+                    println!("REPLAY: scenario failed: {}", e);
+                    std::process::exit(1);
+                }
+            }
+        }
         if let Some(cfg) = j.get("config").and_then(e2e::Config::from_json) {
             let obs = e2e::run(&cfg);
             for t in &obs.transfers {
@@ -575,6 +786,26 @@ pub fn main(opts: &Opts) {
             Ok(None) => report.nontrivial_case(tag),
             Ok(Some((key, desc))) => report.finding(Finding { kind: "violation", key, description: desc, replay: json!({"property": "C11", "module": "ids", "routing_rng": tag}) }),
             Err(e) => report.finding(Finding { kind: "violation", key: "routing-scenario-failed".into(), description: e, replay: json!({"property": "C11", "module": "ids", "routing_rng": tag}) }),
+        }
+    }
+    // histories of attaches / detaches / transfers against the routing model
+    for _ in 0..(2 * n_r) {
+        report.evaluations += 1;
+        report.count("routing_histories");
+        let mut r2 = rng.fork();
+        let tag = r2.0;
+        match run_routing_history(&mut r2) {
+            Ok((ml, il, verdict)) => {
+                if ml.iter().filter(|l| l.starts_with("U inattach")).count() >= 3 {
+                    report.nontrivial_case(tag ^ 0x77);
+                }
+                if let Some((key, desc)) = verdict {
+                    report.finding(Finding { kind: "violation", key, description: desc, replay: json!({"property": "C11", "module": "ids", "routing_history_rng": tag, "model_lines": ml, "implementation": il}) });
+                }
+                model_lines.extend(ml);
+                impl_lines.extend(il);
+            }
+            Err(e) => report.finding(Finding { kind: "violation", key: "routing-history-failed".into(), description: e, replay: json!({"property": "C11", "module": "ids", "routing_history_rng": tag}) }),
         }
     }
     // routing by channel
